@@ -410,10 +410,25 @@ class QGen:
             if r.random() < 0.1:
                 sel, _ = self.select(1, simple=True)
                 return "INSERT INTO %s (%s) %s%s" % (t, ", ".join(cs), sel, ret), "insert"
-            return "INSERT INTO %s (%s) VALUES %s%s" % (t, ", ".join(cs), ", ".join(rows), ret), "insert"
+            oc = ""
+            roc = r.random()
+            if roc < 0.05:
+                oc = " ON CONFLICT DO NOTHING"
+            elif roc < 0.14:
+                # the SET target of the conflict action is a column of the INSERT's target, whatever other relation was
+                # mentioned before it in the statement
+                pre = ""
+                if len(tabs) > 1 and r.random() < 0.5:
+                    t2 = r.choice([x for x in tabs if x != t])
+                    pre = "%s = (SELECT max(%s) FROM %s), " % (r.choice(cols), r.choice(self.s.tables[t2]), t2)
+                oc = " ON CONFLICT (%s) DO UPDATE SET %s%s = %s" % (cs[0], pre, r.choice(cols), self.ph())
+            return "INSERT INTO %s (%s) VALUES %s%s%s" % (t, ", ".join(cs), ", ".join(rows), oc, ret), "insert"
         if k < 0.92:
             n = r.randint(1, min(2, len(cols)))
             sets = ", ".join("%s = %s" % (c, self.ph() if r.random() < 0.8 else "1") for c in r.sample(cols, n))
+            if len(tabs) > 1 and r.random() < 0.12:
+                t2 = r.choice([x for x in tabs if x != t])
+                sets = "%s = (SELECT max(%s) FROM %s), %s" % (r.choice(cols), r.choice(self.s.tables[t2]), t2, sets)
             frm = ""
             if r.random() < 0.15 and len(tabs) > 1:
                 t2 = r.choice([x for x in tabs if x != t])
